@@ -594,7 +594,8 @@ def make_semiring(fggs, name, dtype=None):
 
 def build_fgg(fggs, spec, semiring='real', dtype=None, *, explicit_ids=False, rule_order=None,
               node_orders=None, edge_orders=None, rename=None, domain_kind='range', domain_values=None,
-              value_perm=None, weight_builder=None, requires_grad=False, nt_decl_first=False, ghost_rng=None):
+              value_perm=None, weight_builder=None, requires_grad=False, nt_decl_first=False, ghost_rng=None,
+              id_namer=None):
     """Realise a spec through the public API.
 
     rename:       dict old name -> new name for node labels / edge labels (consistent renaming)
@@ -602,6 +603,7 @@ def build_fgg(fggs, spec, semiring='real', dtype=None, *, explicit_ids=False, ru
                   are permuted accordingly
     domain_values:dict node label -> list of values (FiniteDomain); default RangeDomain
     weight_builder(name, nested_list, dtype) -> Tensor | PatternedTensor  (default dense tensor)
+    id_namer(kind, rule index, node/edge index) -> explicit id string (default 'r<ri>n<vi>')
     returns (fgg, info) where info maps spec names to objects
     """
     import torch
@@ -622,6 +624,7 @@ def build_fgg(fggs, spec, semiring='real', dtype=None, *, explicit_ids=False, ru
     rule_objs = {}
     node_objs = {}
     edge_objs = {}
+    given_ids = {'n': [], 'e': []}
     for ri in order:
         r = spec['rules'][ri]
         g = fggs.Graph()
@@ -629,15 +632,19 @@ def build_fgg(fggs, spec, semiring='real', dtype=None, *, explicit_ids=False, ru
         nodes = {}
         for vi in norder:
             ex_n = explicit_ids if explicit_ids != 'mixed' else (ri + vi) % 2 == 0
-            nid = f'r{ri}n{vi}' if ex_n else None
-            nodes[vi] = fggs.Node(nl[r['nodes'][vi]], id=nid) if nid else fggs.Node(nl[r['nodes'][vi]])
+            nid = (id_namer('n', ri, vi) if id_namer else f'r{ri}n{vi}') if ex_n else None
+            nodes[vi] = fggs.Node(nl[r['nodes'][vi]], id=nid) if nid is not None else fggs.Node(nl[r['nodes'][vi]])
+            if nid is not None:
+                given_ids['n'].append(nid)
             g.add_node(nodes[vi])
         eorder = list(range(len(r['edges']))) if not edge_orders else list(edge_orders[ri])
         for ei in eorder:
             lab, att = r['edges'][ei]
             ex_e = explicit_ids if explicit_ids != 'mixed' else (ri + ei) % 3 != 0
-            eid = f'r{ri}e{ei}' if ex_e else None
-            e = fggs.Edge(el[lab], [nodes[v] for v in att], id=eid) if eid else fggs.Edge(el[lab], [nodes[v] for v in att])
+            eid = (id_namer('e', ri, ei) if id_namer else f'r{ri}e{ei}') if ex_e else None
+            e = fggs.Edge(el[lab], [nodes[v] for v in att], id=eid) if eid is not None else fggs.Edge(el[lab], [nodes[v] for v in att])
+            if eid is not None:
+                given_ids['e'].append(eid)
             g.add_edge(e)
             edge_objs[ri, ei] = e
         g.ext = [nodes[v] for v in r['ext']]
@@ -701,7 +708,7 @@ def build_fgg(fggs, spec, semiring='real', dtype=None, *, explicit_ids=False, ru
         doms = [fgg.domains[nl[l].name] for l in typ]
         fgg.add_factor(el[t], fggs.FiniteFactor(doms, wt))
         weights[t] = wt
-    return fgg, dict(nl=nl, el=el, rules=rule_objs, nodes=node_objs, edges=edge_objs, weights=weights)
+    return fgg, dict(nl=nl, el=el, rules=rule_objs, nodes=node_objs, edges=edge_objs, weights=weights, given_ids=given_ids)
 
 
 def permute_nested(w, perms):
@@ -850,3 +857,11 @@ def gen_zero_cycle_spec(rng):
                 nonterminals=nts, start='S', rules=rules, weights={}, wdomain='log')
     spec['weights'] = {t: weights[t] for t in spec['terminals']}
     return spec
+
+
+ODD_IDS = ['', '0', 'None', ' ', 'null', 'é', '-1', 'id']
+
+
+def odd_id_namer(kind, ri, i):
+    """explicit ids that are valid JSON strings but falsy / number-like / keyword-like"""
+    return ODD_IDS[i] if i < len(ODD_IDS) else f'r{ri}{kind}{i}'
